@@ -1,8 +1,8 @@
 #!/bin/bash
-# usage: import_benign.sh <agent id> <prop>  — takes /tmp/benignwork3/out-<id>/patch.diff into /verif/benign/<prop>-a-<id>/ after
+# usage: import_benign.sh <agent id> <prop>  — takes /tmp/benignwork4/out-<id>/patch.diff into /verif/benign/<prop>-a-<id>/ after
 # checking in a scratch worktree of /repo's HEAD that it applies, builds and passes the unedited suite.
 export GOFLAGS=-mod=mod GOPROXY=off GOSUMDB=off GOTOOLCHAIN=local
-id=$1; prop=$2; src=/tmp/benignwork3/out-$id; dest=/verif/benign/$prop-a-$id
+id=$1; prop=$2; src=/tmp/benignwork4/out-$id; dest=/verif/benign/$prop-a-$id
 [ -f $src/patch.diff ] || { echo "$id: no patch"; exit 1; }
 S=/tmp/benignchk-$id; rm -rf $S; git -C /repo worktree add -q --detach $S HEAD || exit 1
 if git -C $S apply $src/patch.diff 2>/dev/null && (cd $S && go build ./... && go test -vet=off -count=1 ./... >/dev/null 2>&1); then
